@@ -603,4 +603,168 @@ Proof.
   destruct (G _ _ i H1 Hi) as (pi & Hpi & Hci). destruct (G _ _ j H2 Hj) as (pj & Hpj & Hcj).
   exists pi, pj. repeat split; auto. exact (sorted_asc_split cvs m Hokc Hs _ _ Hci Hcj).
 Qed.
+
+(* ---------- C15: the cut of the split front by descending crowding ---------- *)
+Lemma sorted_desc_head t : forall x, Forall ok (x :: t) -> sorted_by (N := N) true (x :: t) = true ->
+  forall y, In y t -> leb N y x = true.
+Proof.
+  induction t as [|y t IH]; intros x Hok H z Hz; [destruct Hz|].
+  cbn [sorted_by] in H. apply andb_true_iff in H as [Hxy H]. inversion Hok as [|? ? Hx Hok']; subst.
+  inversion Hok' as [|? ? Hy Hok'']; subst. destruct Hz as [<-|Hz]; [assumption|].
+  specialize (IH y Hok' H z Hz). rewrite Forall_forall in Hok''.
+  exact (le_trans L z y x (Hok'' z Hz) Hy Hx IH Hxy).
+Qed.
+
+Lemma sorted_desc_tail x t : sorted_by (N := N) true (x :: t) = true -> sorted_by (N := N) true t = true.
+Proof. cbn [sorted_by]. destruct t; [reflexivity|]. intro H. now apply andb_true_iff in H. Qed.
+
+Lemma sorted_desc_split sv : forall m, Forall ok sv -> sorted_by (N := N) true sv = true ->
+  forall x y, In x (firstn m sv) -> In y (skipn m sv) -> leb N y x = true.
+Proof.
+  induction sv as [|z sv IH]; intros m Hok H x y Hx Hy; [destruct m; destruct Hx|].
+  destruct m as [|m]; [destruct Hx|]. cbn in Hx, Hy. inversion Hok as [|? ? Hz Hok']; subst.
+  destruct Hx as [<-|Hx].
+  - apply (sorted_desc_head sv z Hok H). eapply (incl_skipn_aux m); exact Hy.
+  - apply (IH m Hok' (sorted_desc_tail _ _ H) x y Hx Hy).
+Qed.
+
+(* positions and their values stay aligned when a permutation is split *)
+Lemma pick_split (vals : list N) perm sv m : pick vals perm = Some sv ->
+  (forall i, In i (firstn m perm) -> exists v, nth_error vals i = Some v /\ In v (firstn m sv)) /\
+  (forall i, In i (skipn m perm) -> exists v, nth_error vals i = Some v /\ In v (skipn m sv)).
+Proof.
+  intro H. apply pick_F2 in H. destruct (Forall2_firstn_skipn _ _ _ m H) as [H1 H2].
+  assert (G : forall l1 l2 i, Forall2 (fun i a => nth_error vals i = Some a) l1 l2 -> In i l1 -> exists v, nth_error vals i = Some v /\ In v l2).
+  { intros l1 l2 i HF Hi. induction HF as [|a v l1 l2 Hav HF IH]; [destruct Hi|].
+    destruct Hi as [<-|Hi]; [exists v; split; [assumption|now left]|]. destruct (IH Hi) as (w & Hw & Hin). exists w. split; [assumption|now right]. }
+  split; intros i Hi; eapply G; eauto.
+Qed.
+
+Lemma perm_surjective n perm : length perm = n -> NoDup perm -> Forall (fun i => i < n) perm -> forall i, i < n -> In i perm.
+Proof.
+  intros Hl Hnd Hr i Hi.
+  assert (Hincl : incl perm (seq 0 n)) by (intros x Hx; rewrite Forall_forall in Hr; apply in_seq; specialize (Hr x Hx); lia).
+  assert (Hle : length (seq 0 n) <= length perm) by (rewrite seq_length; lia).
+  apply (NoDup_length_incl Hnd Hle Hincl). apply in_seq. lia.
+Qed.
+
+(* the positions holding a maximal ("infinite") value are all kept, provided there are at most m of them *)
+Lemma top_kept (vals : list N) perm sv m top :
+  Forall ok vals -> ok top ->
+  length perm = length vals -> NoDup perm -> Forall (fun i => i < length vals) perm ->
+  pick vals perm = Some sv -> sorted_by (N := N) true sv = true ->
+  length (filter (fun j => negb (ltb N (nth j vals top) top)) (seq 0 (length vals))) <= m ->
+  forall i, i < length vals -> ltb N (nth i vals top) top = false -> In i (firstn m perm).
+Proof.
+  intros Hok Htop Hl Hnd Hr Hp Hs Hcnt i Hi Hv.
+  pose proof (perm_surjective _ _ Hl Hnd Hr i Hi) as Hin.
+  rewrite <- (firstn_skipn m perm) in Hin. apply in_app_or in Hin as [Hin|Hin]; [assumption|exfalso].
+  destruct (pick_split vals perm sv m Hp) as [P1 P2].
+  assert (Hoksv : Forall ok sv).
+  { apply pick_F2 in Hp. clear - Hp Hok. induction Hp as [|a v l1 l2 Hav Hp IH]; constructor; [|assumption].
+    rewrite Forall_forall in Hok. apply Hok. eapply nth_error_In; eauto. }
+  destruct (P2 i Hin) as (vi & Hvi & Hvin).
+  set (tops := filter (fun j => negb (ltb N (nth j vals top) top)) (seq 0 (length vals))) in *.
+  assert (Hsub : incl (i :: firstn m perm) tops).
+  { intros x [<-|Hx]; apply filter_In.
+    - split; [apply in_seq; lia|]. now rewrite Hv.
+    - assert (Hxr : x < length vals) by (rewrite Forall_forall in Hr; apply Hr; eapply incl_firstn; eauto).
+      split; [apply in_seq; lia|]. destruct (P1 x Hx) as (vx & Hvx & Hvxin).
+      pose proof (sorted_desc_split sv m Hoksv Hs vx vi Hvxin Hvin) as Hle.
+      rewrite (nth_error_nth _ _ _ Hvx). rewrite (nth_error_nth _ _ _ Hvi) in Hv.
+      rewrite Forall_forall in Hoksv.
+      assert (Okx : ok vx) by (apply Hoksv; eapply incl_firstn; eauto).
+      assert (Oki : ok vi) by (apply Hoksv; eapply incl_skipn_aux; eauto).
+      apply negb_true_iff. destruct (ltb N vx top) eqn:E; [|reflexivity].
+      (* vi <= vx < top  contradicts  not (vi < top) *)
+      rewrite (le_is_not_gt _ _ L) in Hle by assumption.
+      destruct (lt_cotrans _ _ L vx vi top Okx Oki Htop E) as [H1|H1]; [rewrite H1 in Hle; discriminate|congruence]. }
+  assert (Hnd2 : NoDup (i :: firstn m perm)).
+  { constructor; [|now apply NoDup_firstn]. intro Hc.
+    rewrite <- (firstn_skipn m perm) in Hnd. apply NoDup_app_inv in Hnd as (_ & _ & Hd). exact (Hd i Hc Hin). }
+  pose proof (NoDup_incl_length Hnd2 Hsub) as Hlen. cbn [length] in Hlen.
+  assert (Hfl : length (firstn m perm) = m).
+  { rewrite firstn_length. destruct (Nat.le_gt_cases m (length perm)) as [Hle|Hgt]; [lia|].
+    exfalso. rewrite skipn_all2 in Hin by lia. destruct Hin. }
+  lia.
+Qed.
+
+(* how the split front is cut: the first m positions of a descending sort of its crowding values *)
+Definition cut_desc (front : list nat) (m : nat) (sel : list nat) : Prop :=
+  sel = front \/
+  exists crowd perm sv, length crowd = length front /\ length perm = length crowd /\ NoDup perm /\
+    Forall (fun i => i < length crowd) perm /\ pick crowd perm = Some sv /\ sorted_by (N := N) true sv = true /\
+    pick front (firstn m perm) = Some sel.
+
+Lemma rnc_loop_cut n : forall fronts k surv attrs s surv' attrs' s',
+  rnc_loop (N := N) n k fronts surv attrs s = Ok ((surv', attrs'), s') ->
+  stop_ok n (length surv) fronts -> length surv <= n ->
+  exists sel, surv' = surv ++ concat (removelast fronts) ++ sel /\
+              cut_desc (last fronts []) (n - length (surv ++ concat (removelast fronts))) sel.
+Proof.
+  induction fronts as [|fr rest IH]; intros k surv attrs s surv' attrs' s' H Hs Hle; [inversion Hs|].
+  cbn [rnc_loop] in H. inversion Hs as [fr' acc Hge|fr' rest' acc Hlt Hs']; subst.
+  - destruct (n <? length surv + length fr) eqn:E.
+    + apply Nat.ltb_lt in E.
+      apply bind_ok in H as (crowd & s1 & Hc & H). apply bind_ok in H as (perm & s2 & Hp & H).
+      apply bind_ok in H as (sel & s3 & Hsel & H). apply lift_ok in Hsel as [Hsel <-].
+      cbn [rnc_loop] in H. apply ret_ok in H as [H _]. inversion H; subst.
+      apply draw_crowd_ok in Hc. apply draw_sort_ok in Hp as (Hl & Hpn & Hpr & sv & Hsv & Hsorted).
+      exists sel. cbn [removelast concat last app]. rewrite app_nil_r. split; [reflexivity|].
+      right. exists crowd, perm, sv. repeat split; auto.
+      replace (n - length surv) with (length perm - (length surv + length fr - n)) by lia. exact Hsel.
+    + apply bind_ok in H as (crowd & s1 & Hc & H). cbn [rnc_loop] in H. apply ret_ok in H as [H _]. inversion H; subst.
+      exists fr. cbn [removelast concat last app]. split; [reflexivity|now left].
+  - destruct (n <? length surv + length fr) eqn:E; [apply Nat.ltb_lt in E; lia|].
+    apply bind_ok in H as (crowd & s1 & Hc & H).
+    apply IH in H; [|rewrite app_length; assumption|rewrite app_length; lia].
+    destruct H as (sel & -> & Hcut). exists sel.
+    destruct rest as [|fr2 rest]; [inversion Hs'|].
+    change (removelast (fr :: fr2 :: rest)) with (fr :: removelast (fr2 :: rest)).
+    change (last (fr :: fr2 :: rest) []) with (last (fr2 :: rest) []).
+    cbn [concat]. rewrite <- !app_assoc in *. split; [reflexivity|exact Hcut].
+Qed.
+
+Lemma rnc_do_cut F n s surv attrs s' :
+  rnc_do (N := N) F n s = Ok ((surv, attrs), s') -> n <= length F ->
+  exists fronts sel, is_ndsb F n fronts = true /\ surv = concat (removelast fronts) ++ sel /\
+                     cut_desc (last fronts []) (n - length (concat (removelast fronts))) sel.
+Proof.
+  unfold rnc_do. intros H Hn. apply bind_ok in H as (fronts & s1 & Hd & H). apply draw_nds_ok in Hd.
+  pose proof (is_ndsb_parts _ _ _ Hd) as (Hok & Htot & Hlast).
+  assert (Hfne : fronts <> []) by (intro E; subst; cbn in *; lia).
+  assert (Hstop : stop_ok n 0 fronts) by (apply stop_ok_intro; cbn; [assumption|lia|lia]).
+  apply rnc_loop_cut in H; [|exact Hstop|cbn; lia]. destruct H as (sel & -> & Hcut). cbn [app] in *.
+  exists fronts, sel. auto.
+Qed.
+
+(* C15 boundary clause, for every crowding metric: a member of the split front whose crowding value is maximal
+   (+inf) survives, provided the number of such members does not exceed the number of members kept *)
+Lemma cut_keeps_top (front : list nat) m sel crowd perm sv top :
+  length crowd = length front -> length perm = length crowd -> NoDup perm -> Forall (fun i => i < length crowd) perm ->
+  pick crowd perm = Some sv -> sorted_by (N := N) true sv = true -> pick front (firstn m perm) = Some sel ->
+  Forall ok crowd -> ok top ->
+  length (filter (fun j => negb (ltb N (nth j crowd top) top)) (seq 0 (length crowd))) <= m ->
+  forall j x, nth_error front j = Some x -> ltb N (nth j crowd top) top = false -> In x sel.
+Proof.
+  intros Hlc Hlp Hnd Hr Hsv Hs Hsel Hok Htop Hcnt j x Hj Hv.
+  assert (Hjl : j < length crowd) by (rewrite Hlc; apply nth_error_Some; congruence).
+  pose proof (top_kept crowd perm sv m top Hok Htop Hlp Hnd Hr Hsv Hs Hcnt j Hjl Hv) as Hin.
+  apply pick_F2 in Hsel. clear - Hsel Hin Hj. induction Hsel as [|a b l1 l2 Hab H IH]; [destruct Hin|].
+  destruct Hin as [->|Hin]; [left; congruence|right; auto].
+Qed.
+
+(* one-shot metrics (cd, ce): every dropped position has a crowding value <= every kept position *)
+Lemma cut_drops_smallest (crowd : list N) perm sv m a b :
+  length perm = length crowd -> pick crowd perm = Some sv -> sorted_by (N := N) true sv = true -> Forall ok crowd ->
+  In a (firstn m perm) -> In b (skipn m perm) ->
+  exists va vb, nth_error crowd a = Some va /\ nth_error crowd b = Some vb /\ leb N vb va = true.
+Proof.
+  intros Hl Hp Hs Hok Ha Hb. destruct (pick_split crowd perm sv m Hp) as [P1 P2].
+  destruct (P1 a Ha) as (va & Hva & Hia). destruct (P2 b Hb) as (vb & Hvb & Hib).
+  assert (Hoksv : Forall ok sv).
+  { apply pick_F2 in Hp. clear - Hp Hok. induction Hp as [|x v l1 l2 Hav Hp IH]; constructor; [|assumption].
+    rewrite Forall_forall in Hok. apply Hok. eapply nth_error_In; eauto. }
+  exists va, vb. repeat split; auto. exact (sorted_desc_split sv m Hoksv Hs va vb Hia Hib).
+Qed.
 End P.
